@@ -72,10 +72,10 @@ theorem dropCalls_inv (k : SessKey) : ∀ (l : List ReqId) (s : DState), DealerI
         have hf' : (s.d.delCall c).findInv i = some v := hf
         rw [hb']
         simp only [hf']
-        have := (h.cancelTimer v.timer).forget (c := c) (i := i)
-          (Or.inl (by rw [cancelTimer_d]; exact (byCall?_eq_some h.call.byFst).1 hb))
+        have := h.endCall hv
+        rw [hvi, hvc] at this
         rw [delCall_delByCall_delInv]
-        simpa using this
+        exact this
       · have hb : (s.d.delCall c).byCall? c = none := h.call.byCall?_none hc
         rw [hb]
         simp only
@@ -132,7 +132,7 @@ theorem DealerInv.init (strict allowDisclose : Bool) :
     DealerInv { d := { strict := strict, allowDisclose := allowDisclose } } := by
   refine ⟨⟨⟨by simp, by simp, by simp, by simp, by simp, by simp⟩, idxOk_nil, ?_⟩,
     ⟨by simp, by simp, by simp, by simp, by simp, by simp, by simp, by simp⟩,
-    ⟨by simp, by simp, by simp, by simp, by simp⟩⟩
+    ⟨by simp, by simp, by simp, by simp, by simp, by simp⟩⟩
   intro k id
   simp [idxIds, idxGet, calleeRel]
 
@@ -141,7 +141,8 @@ theorem DealerInv.init (strict allowDisclose : Bool) :
 theorem DealerInv.filterTimers {s : DState} (h : DealerInv s) (p : Timer → Bool) :
     DealerInv { s with timers := s.timers.filter p } := by
   refine ⟨h.reg, h.call, ⟨h.aux.gen, nodup_map_filter _ _ h.aux.timerIds,
-    fun t ht => h.aux.timerRange t (List.mem_filter.1 ht).1, ?_, h.aux.invTimerInj⟩⟩
+    fun t ht => h.aux.timerRange t (List.mem_filter.1 ht).1, ?_, h.aux.invTimerInj,
+    fun t ht hc => h.aux.timerOwned t (List.mem_filter.1 ht).1 hc⟩⟩
   intro v hv tid hvt
   obtain ⟨h1, h2, h3⟩ := h.aux.invTimer v hv tid hvt
   exact ⟨h1, h2, fun t ht => h3 t (List.mem_filter.1 ht).1⟩
